@@ -96,7 +96,7 @@ where
     cx.label(KINDS[kind]);
     // ---- build the source; `order` = ids in the order the source will present them
     let mk = |k: usize| ledger::fresh(2000 + k as u32);
-    let mut order: Vec<u32>;
+    let order: Vec<u32>;
     let mut pre_yielded: Vec<Tracked> = Vec::new(); // elements pulled while bringing vek iterators into their state
     let mut stream: Stream<V::It> = match kind {
         0 | 1 | 9 | 10 | 11 => {
@@ -311,22 +311,22 @@ where
     if rest_ids[..] != order[pos..] {
         fail!("{}: the source still yields {:?}; the elements not placed in a vector are {:?}", end(), rest_ids, &order[pos..]);
     }
-    for t in rest.drain(..).chain(pre_yielded.drain(..)) {
-        if !pre_yielded_contains(&t) {
-            ledger::yielded(&t);
-        }
+    for t in rest.drain(..) {
+        ledger::yielded(&t);
+        ledger::consume(t);
+    }
+    for t in pre_yielded.drain(..) {
         ledger::consume(t);
     }
     crate::settle_strict(cx, &end)?;
-    drop(stream);
     drop(vectors);
     crate::settle_strict(cx, &end)?;
     cx.set_nontrivial(true);
-    order.clear();
+    if let Stream::Own(s) = &stream {
+        if s.calls_after_none > 0 {
+            cx.label("source:next-called-again-after-None(not judged)");
+        }
+    }
+    drop(stream);
     crate::all_dropped_once(cx, &|| format!("{} after dropping the source and every vector", end()))
-}
-
-/// elements pulled while preparing a vek source were already marked as yielded
-fn pre_yielded_contains(t: &Tracked) -> bool {
-    ledger::entry(t.id).map_or(false, |e| e.st == St::Yielded)
 }
